@@ -1897,7 +1897,9 @@ def i_PINSRW(i, fmap):
     src1 = fmap(op1)
     src2 = fmap(op2)
     if op3._is_cst:
-        sta, sto = op3.value * 16, op3.value * 16 + 16
+        # the word is selected by the low 2 (mmx) or 3 (xmm) bits of imm8
+        sel = op3.value % (src1.size // 16)
+        sta, sto = sel * 16, sel * 16 + 16
         src1[sta:sto] = src2
     else:
         src1 = top(src1.size)
@@ -1911,7 +1913,9 @@ def i_PEXTRW(i, fmap):
     op3 = i.operands[2]
     src2 = fmap(op2)
     if op3._is_cst:
-        sta, sto = op3.value * 16, op3.value * 16 + 16
+        # the word is selected by the low 2 (mmx) or 3 (xmm) bits of imm8
+        sel = op3.value % (src2.size // 16)
+        sta, sto = sel * 16, sel * 16 + 16
         v = src2[sta:sto]
     else:
         v = top(16)
